@@ -64,6 +64,16 @@ def check_case(ctx, cs):
             ok, r = _try(ctx, cname + ".evaluate_single", tg + ["find_span_func=binsearch"], small, lambda: ob.evaluate_single(arg))
             if ok and not close_seq(r, exp):
                 ctx.violate(cname + ".evaluate_single", tg + ["find_span_func=binsearch"], small, {"expected": fl(exp), "got": r})
+        ok, ob = _try(ctx, cname + ".build", tg + ["tuples_and_ints"], small, lambda: build(sh, alt_repr=True))
+        if ok:
+            # control points / knots given as tuples with Python ints, the parameter as an int where it is integral (tuple for surfaces)
+            arg2 = (int(prm[0]) if float(prm[0]).is_integer() else prm[0]) if pd == 1 else tuple(int(x) if float(x).is_integer() else x for x in prm)
+            ok, r = _try(ctx, cname + ".evaluate_single", tg + ["tuples_and_ints"], small, lambda: ob.evaluate_single(arg2))
+            if ok and not close_seq(r, exp):
+                ctx.violate(cname + ".evaluate_single", tg + ["tuples_and_ints"], small, {"expected": fl(exp), "got": r})
+            ok, r = _try(ctx, cname + ".evaluate_list", tg + ["tuples_and_ints"], small, lambda: ob.evaluate_list((arg2,)))
+            if ok and not close_seq(r, [exp]):
+                ctx.violate(cname + ".evaluate_list", tg + ["tuples_and_ints"], small, {"expected": [fl(exp)], "got": r})
         if sh["rat"]:
             def by_setters():
                 o2 = build(sh)
